@@ -504,12 +504,25 @@ Definition odeqb (a b : OD) : bool := option_eqb deqb a b.
 Definition oclose (a b : OD) : bool :=
   match a, b with Some x, Some y => dclose x y | _, _ => false end.
 
+(** Datasets compared as xarray presents them to this property: the two
+    index coordinates by name (their position among the coordinates is not
+    observable through make_xarray_grid's contract or grid_to_table), the
+    non-index coordinates in order, the variables in order *)
+Definition dataset_agree (dims : string * string) (a b : dataset OD) : bool :=
+  (length (ds_coords a) =? length (ds_coords b))
+  && option_eqb (coord_eqb odeqb) (assoc (fst dims) (ds_coords a)) (assoc (fst dims) (ds_coords b))
+  && option_eqb (coord_eqb odeqb) (assoc (snd dims) (ds_coords a)) (assoc (snd dims) (ds_coords b))
+  && list_eqb (named_eqb (coord_eqb odeqb))
+       (filter (is_extra (fst dims) (snd dims)) (ds_coords a))
+       (filter (is_extra (fst dims) (snd dims)) (ds_coords b))
+  && list_eqb (named_eqb (var_eqb odeqb)) (ds_vars a) (ds_vars b).
+
 (** make_xarray_grid *)
 Definition c18_make (ce cn : nd OD) (extras : list (arr2 OD)) (data : dataarg OD)
     (data_names : names) (dims : string * string) (extra_names : names)
     (obs : option (dataset OD)) : verdict :=
   mk_verdict
-    (option_eqb (dataset_eqb odeqb) (make_xarray_grid oclose ce cn extras data data_names dims extra_names) obs)
+    (option_eqb (dataset_agree dims) (make_xarray_grid oclose ce cn extras data data_names dims extra_names) obs)
     (make_holds odeqb oclose ce cn extras data data_names dims extra_names obs).
 
 (** grid_to_table on a grid given as observed from xarray *)
